@@ -45,7 +45,17 @@ def s_process_node(ctx, opkind=0):
     def should_fold(n):
         raise AssertionError
     I.models[should_fold] = lambda interp, n: sf
-    p.fields.update(_state=state, _opset_imports={"": 18}, shape_inference=False, input_size_limit=limit, output_size_limit=limit,
+    # opkind >= 4: an operator whose meaning changed at some opset version (the reference implementation has the newer one only);
+    # the model's opset version is then arbitrary
+    CHANGED = {4: ("Softmax", 13), 5: ("LogSoftmax", 13), 6: ("Hardmax", 13)}
+    opset_version = 18
+    if opkind in CHANGED:
+        from pyvc.values import SInt as _SInt
+        vterm = ctx.int("opset_version")
+        ctx.assume(vterm >= 1)
+        ctx.witness["opset_version"] = vterm
+        opset_version = _SInt(vterm)
+    p.fields.update(_state=state, _opset_imports={"": opset_version}, shape_inference=False, input_size_limit=limit, output_size_limit=limit,
                     should_fold=should_fold, _modified=False)
     flags = {"is_constant_op": opkind == 1, "blacklisted": opkind == 2, "always_fold_op": opkind == 3}
     for nm in ("has_graph_attribute", "non_deterministic"):
@@ -71,6 +81,8 @@ def s_process_node(ctx, opkind=0):
         inputs.append(v)
         info.append((gi, has_const, size, single_consumer))
     op_type = "Constant" if flags["is_constant_op"] else ("ConstantOfShape" if flags["blacklisted"] else ("Transpose" if flags["always_fold_op"] else "Add"))
+    if opkind in CHANGED:
+        op_type = CHANGED[opkind][0]
     attrs = {}
     node = W.node(op_type, inputs, attrs=attrs)
     attr_kind = ["none", "int", "reference"][ctx.choose(3, "attribute")]
@@ -140,6 +152,12 @@ def s_process_node(ctx, opkind=0):
         ctx.check("C03.folding.process_node.no_evaluation_with_an_unresolved_attribute_reference", attr_kind != "reference",
                   CL03 + " — inside a function an attribute may refer to the function's attribute parameter: its value is not known, the operator's default must not be used")
         a = evals[-1]
+        if opkind in CHANGED:
+            import z3 as _z3
+            from pyvc.values import term as _term
+            ctx.check("C03.folding.process_node.no_reference_evaluation_of_an_operator_under_an_opset_that_predates_the_implemented_semantics",
+                      _term(a[2]) >= CHANGED[opkind][1],
+                      CL03 + " — Softmax / LogSoftmax / Hardmax before opset 13 coerce the input to 2D around axis (default 1); onnx.reference implements the opset-13 meaning for every version")
         vals = list(a[3:])
         pos_ok = len(vals) == len(inputs) and all((v is None) == (x is None) and (x is None or v is x.fields["const_value"].arr) for v, x in zip(vals, inputs))
         ctx.check("C03.folding.process_node.evaluator_gets_every_input_at_its_own_position", a[:2] == ("", op_type) and pos_ok,
@@ -275,10 +293,11 @@ def s_call_resets_state(ctx):
 
 F = lambda *q: [(REL, x) for x in q]
 SCENARIOS = [
-    Scenario(f"C03.folding.process_node[{['Add', 'Constant', 'ConstantOfShape (blacklisted)', 'Transpose (always-fold)'][k]}]", (lambda k: lambda ctx: s_process_node(ctx, k))(k), F("FoldConstantsPass.process_node", "_is_onnx_op", "_is_control_flow_op"), kind="bounded",
+    Scenario(f"C03.folding.process_node[{['Add', 'Constant', 'ConstantOfShape (blacklisted)', 'Transpose (always-fold)', 'Softmax (any opset)', 'LogSoftmax (any opset)', 'Hardmax (any opset)'][k]}]", (lambda k: lambda ctx: s_process_node(ctx, k))(k), F("FoldConstantsPass.process_node", "_is_onnx_op", "_is_control_flow_op"), kind="bounded",
              bound="node with <= 2 inputs; every combination of the guard flags, should_fold in {None, True, False}, small/large constants, single/multiple consumers",
-             trusted=["onnx.reference evaluators compute what the runtime computes; utils.is_onnx_domain"], max_paths=40000, budget_s=900)
-    for k in range(4)
+             trusted=["onnx.reference evaluators compute what the runtime computes FOR THE NEWEST VERSION of the operator they implement; utils.is_onnx_domain",
+                      "ONNX changelog: Softmax / LogSoftmax / Hardmax changed meaning at opset 13; onnx.reference implements one version of them"], max_paths=40000, budget_s=900)
+    for k in range(7)
 ] + [
     Scenario("C04.folding.sym_value_can_replace_graph_output", s_can_replace_output, F("_sym_value_can_replace_graph_output")),
     Scenario("C04.folding.visit_graph_outputs", s_visit_graph_outputs, F("FoldConstantsPass.visit_graph")),
